@@ -630,3 +630,21 @@ func init() {
 	k.What = "the region of known finding C04-n alone: the 24 nonce bytes at the start of the stream differ from the genuine ones"
 	reg("C04", m, k)
 }
+
+func init() {
+	sess := map[string]string{
+		"github.com/google/btree.NewG":                           "vTreeNew",
+		"(*github.com/google/btree.BTreeG[T]).Len":               "vTreeLen",
+		"(*github.com/google/btree.BTreeG[T]).ReplaceOrInsert":   "vTreeReplaceOrInsert",
+		"(*github.com/google/btree.BTreeG[T]).Min":               "vTreeMin",
+		"(*github.com/google/btree.BTreeG[T]).Max":               "vTreeMax",
+		"(*github.com/google/btree.BTreeG[T]).DeleteMin":         "vTreeDeleteMin",
+		"(*github.com/google/btree.BTreeG[T]).Clear":             "vTreeClear",
+		"(*github.com/google/btree.BTreeG[T]).Ascend":            "vTreeAscend",
+		"(*github.com/enfein/mieru/v3/pkg/protocol.Session).output": "vStubOutput",
+		"github.com/enfein/mieru/v3/pkg/metrics.RegisterMetric":  "vStubRegisterMetric",
+	}
+	reg("C07", HarnessDef{ID: "H7.4", Spec: HarnessSpec{Name: "vH_C07_later_session_keeps_policy", Pkg: "pkg/protocol", LoopBound: 8, LoopBounds: map[string]int{"closeWithError": 1001}, TimeoutS: 120, Par: 2, IgnoreGo: true, Redirects: sess},
+		What:   "real StreamUnderlay.onOpenSessionRequest for a LATER session of an already authenticated TCP connection (the segment carries no pending authentication): the session created carries the connection user's policy snapshot with the user's own quotas - attribution and quota hold for every session multiplexed on the connection, not only the first",
+		Bounds: "one later session, any non-zero id, one quota with arbitrary allowance", Outside: "the session's input/output goroutines are not started (go statements skipped); B-tree model"})
+}
